@@ -1,3 +1,585 @@
-(* C04/Proofs.v -- lemmas about C04/Model.v (filled in below). *)
-From Coq Require Import ZArith List Bool.
-From Verif Require Import Base.Num Base.Vec C04.Model.
+(* C04/Proofs.v -- lemmas about C04/Model.v over an abstract commutative ring.
+   Section hypotheses (ring laws, x/c = (1/c)*x, soundness of the zero test) become explicit
+   premises of every exported lemma; C04/Instances.v discharges them at R and at C = R*R. *)
+From Coq Require Import ZArith List Bool Ring Lia.
+From Verif Require Import Base.Num Base.Vec C04.Model C04.VecRing.
+Import ListNotations.
+Local Open Scope num_scope.
+
+Section Sound.
+Context {T : Type} {N : Num T}.
+Hypothesis Rth : ring_theory nzero none_ nadd nmul nsub nopp (@eq T).
+Hypothesis Hdiv : forall u c : T, u / c = (none_ / c) * u.
+Hypothesis Heqb : forall a b : T, (a =? b) = true -> a = b.
+Add Ring Tring2 : Rth.
+Notation vec := (list T).
+Notation oexpr := (oexpr T).
+Notation sexpr := (sexpr T).
+Notation leaf := (leaf T).
+
+Definition homog (f : vec -> vec) (n : nat) : Prop :=
+  forall c x, length x = n -> f (vscal c x) = vscal c (f x).
+Definition additive (f : vec -> vec) (n : nat) : Prop :=
+  forall x y, length x = n -> length y = n -> f (vadd x y) = vadd (f x) (f y).
+
+(* What is assumed of a leaf: its domain is a vector space F^n, it maps F^n into its declared
+   range, a Functional has the field as range, and -- the premise that licenses the
+   `A * a -> a * A` rewrite -- a leaf flagged linear is homogeneous. *)
+Record leaf_ok (l : leaf) : Prop := {
+  lk_dom : exists n, l_dom l = SV n;
+  lk_len : forall x, length x = dim (l_dom l) -> length (l_fun l x) = dim (l_ran l);
+  lk_func : l_func l = true -> l_ran l = SF;
+  lk_hom : l_lin l = true -> homog (l_fun l) (dim (l_dom l)) }.
+
+Fixpoint wf (o : oexpr) : Prop :=
+  match o with
+  | OLeaf l => leaf_ok l
+  | OConst d _ | OZero d => exists n, d = SV n
+  | OSum fn a b => wf a /\ wf b /\ oran a = oran b /\ odom a = odom b /\ (fn = true -> ofunc a = true)
+  | OScalSum a _ => wf a /\ ofunc a = true
+  | OVecSum a v => wf a /\ oran a = SV (length v)
+  | OComp fn a b => wf a /\ wf b /\ oran b = odom a /\ (fn = true -> ofunc a = true)
+  | OLScal fn a _ | ORScal fn a _ => wf a /\ (fn = true -> ofunc a = true)
+  | OLVec a v => wf a /\ oran a = SV (length v)
+  | ORVec fn a v => wf a /\ odom a = SV (length v) /\ fn = ofunc a
+  | OFLVec a v => wf a /\ oran a = SF
+  | OPtw a b => wf a /\ wf b /\ oran a = oran b /\ odom a = odom b
+  end.
+
+Lemma sp_eqb_eq a b : sp_eqb a b = true <-> a = b.
+Proof.
+  destruct a as [n|], b as [m|]; cbn; split; intros E; try discriminate; try reflexivity.
+  - apply Nat.eqb_eq in E; congruence.
+  - inversion E; apply Nat.eqb_refl.
+Qed.
+Lemma in_sp_eq (v : vec) s : in_sp v s = true <-> s = SV (length v).
+Proof.
+  destruct s as [n|]; cbn; split; intros E; try discriminate.
+  - apply Nat.eqb_eq in E; congruence.
+  - inversion E; apply Nat.eqb_refl.
+Qed.
+
+Lemma func_ran o : wf o -> ofunc o = true -> oran o = SF.
+Proof.
+  induction o as [l|d c|d|fn a IHa b IHb|a IHa c|a IHa v|fn a IHa b IHb|fn a IHa c|fn a IHa c
+                 |a IHa v|fn a IHa v|a IHa v|a IHa b IHb]; cbn [wf ofunc oran]; intros W F;
+    try reflexivity; try discriminate.
+  - apply (lk_func _ W F).
+  - destruct W as (Wa & _ & _ & _ & Hf). subst fn. auto.
+  - destruct W as (Wa & _ & _ & Hf). subst fn. auto.
+  - destruct W as (Wa & Hf). subst fn. auto.
+  - destruct W as (Wa & Hf). subst fn. auto.
+  - destruct W as (Wa & _ & Hf). subst fn. auto.
+Qed.
+
+Lemma dom_sv o : wf o -> exists n, odom o = SV n.
+Proof.
+  induction o as [l|d c|d|fn a IHa b IHb|a IHa c|a IHa v|fn a IHa b IHb|fn a IHa c|fn a IHa c
+                 |a IHa v|fn a IHa v|a IHa v|a IHa b IHb]; cbn [wf odom]; intros W;
+    try (apply IHa; tauto); try assumption.
+  - apply (lk_dom _ W).
+  - apply IHb; tauto.
+Qed.
+
+Lemma eval_length o : wf o -> forall x, length x = dim (odom o) -> length (eval o x) = dim (oran o).
+Proof.
+  induction o as [l|d c|d|fn a IHa b IHb|a IHa c|a IHa v|fn a IHa b IHb|fn a IHa c|fn a IHa c
+                 |a IHa v|fn a IHa v|a IHa v|a IHa b IHb]; cbn [wf odom oran eval]; intros W x Hx;
+    try reflexivity.
+  - apply (lk_len _ W x Hx).
+  - destruct W as (Wa & Wb & Er & Ed & _). unfold vadd; rewrite vmap2_length.
+    rewrite (IHa Wa x Hx), (IHb Wb x) by congruence. rewrite <- Er. apply Nat.min_id.
+  - destruct W as (Wa & Fa). unfold vadd; rewrite vmap2_length, (IHa Wa x Hx), (func_ran _ Wa Fa).
+    reflexivity.
+  - destruct W as (Wa & Er). unfold vadd; rewrite vmap2_length, (IHa Wa x Hx), Er. cbn [dim].
+    apply Nat.min_id.
+  - destruct W as (Wa & Wb & Er & _). apply IHa; auto. rewrite (IHb Wb x Hx). congruence.
+  - destruct W as (Wa & _). rewrite vscal_length. auto.
+  - destruct W as (Wa & _). apply IHa; auto. rewrite vscal_length. auto.
+  - destruct W as (Wa & Er). unfold vmul; rewrite vmap2_length, (IHa Wa x Hx), Er. cbn [dim].
+    apply Nat.min_id.
+  - destruct W as (Wa & Ed & _). apply IHa; auto. unfold vmul; rewrite vmap2_length, Hx, Ed.
+    cbn [dim]. apply Nat.min_id.
+  - rewrite vscal_length. reflexivity.
+  - destruct W as (Wa & Wb & Er & Ed). unfold vmul; rewrite vmap2_length.
+    rewrite (IHa Wa x Hx), (IHb Wb x) by congruence. rewrite <- Er. apply Nat.min_id.
+Qed.
+
+Lemma eval_func_singleton o x : wf o -> ofunc o = true -> length x = dim (odom o) ->
+  eval o x = [scalar_of (eval o x)].
+Proof.
+  intros W F Hx. apply length1. rewrite (eval_length _ W x Hx), (func_ran _ W F). reflexivity.
+Qed.
+Lemma eval_SF_singleton o x : wf o -> oran o = SF -> length x = dim (odom o) ->
+  eval o x = [scalar_of (eval o x)].
+Proof.
+  intros W F Hx. apply length1. rewrite (eval_length _ W x Hx), F. reflexivity.
+Qed.
+
+(* ---- an object flagged linear is homogeneous (induction over all object trees) ---- *)
+Lemma olin_hom o : wf o -> olin o = true -> homog (eval o) (dim (odom o)).
+Proof.
+  induction o as [l|d c|d|fn a IHa b IHb|a IHa c|a IHa v|fn a IHa b IHb|fn a IHa c|fn a IHa c
+                 |a IHa v|fn a IHa v|a IHa v|a IHa b IHb]; cbn [wf odom olin eval]; intros W L k x Hx;
+    try discriminate.
+  - apply (lk_hom _ W L k x Hx).
+  - apply Heqb in L; subst c. cbn. f_equal. ring.
+  - cbn. f_equal. ring.
+  - destruct W as (Wa & Wb & Er & Ed & _). apply andb_true_iff in L as [La Lb].
+    rewrite (IHa Wa La k x Hx), (IHb Wb Lb k x) by congruence. symmetry; apply (vscal_vadd Rth).
+  - destruct W as (Wa & Fa). apply andb_true_iff in L as [La Lc]. apply Heqb in Lc; subst c.
+    rewrite (IHa Wa La k x Hx), (vscal_vadd Rth). f_equal. cbn. f_equal. ring.
+  - destruct W as (Wa & Wb & Er & _). apply andb_true_iff in L as [La Lb].
+    rewrite (IHb Wb Lb k x Hx). apply (IHa Wa La). rewrite (eval_length _ Wb x Hx). congruence.
+  - destruct W as (Wa & _). rewrite (IHa Wa L k x Hx). apply (vscal_comm Rth).
+  - destruct W as (Wa & _). rewrite (vscal_comm Rth). apply (IHa Wa L). rewrite vscal_length; auto.
+  - destruct W as (Wa & _). rewrite (IHa Wa L k x Hx). apply (vscal_vmul_l Rth).
+  - destruct fn; [discriminate|]. destruct W as (Wa & Ed & _).
+    rewrite (vscal_vmul_l Rth). apply (IHa Wa L). unfold vmul; rewrite vmap2_length, Hx, Ed. cbn [dim].
+    apply Nat.min_id.
+  - destruct W as (Wa & Er). rewrite (IHa Wa L k x Hx).
+    rewrite (eval_SF_singleton a x Wa Er Hx). cbn [vscal map scalar_of hd].
+    rewrite <- (vscal_vscal Rth). reflexivity.
+Qed.
+
+(* ------------------------------------------------------------------ *)
+(* [sem o d r f]: o is a well-formed object d -> r that evaluates to f *)
+Definition sem (o : oexpr) (d r : sp) (f : vec -> vec) : Prop :=
+  wf o /\ odom o = d /\ oran o = r /\ forall x, length x = dim d -> eval o x = f x.
+
+Ltac sem_split := split; [|split; [|split]].
+
+Lemma sem_ext o d r f g : sem o d r f -> (forall x, length x = dim d -> f x = g x) -> sem o d r g.
+Proof. intros (W & D & R & E) H. sem_split; auto. intros x Hx. rewrite E; auto. Qed.
+
+(* constructors *)
+Lemma mkLScal_cases fn (a : oexpr) c o : mkLScal fn a c = Ok o ->
+  (exists f' a' c', a = OLScal f' a' c' /\ o = OLScal fn a' (c * c')) \/ o = OLScal fn a c.
+Proof.
+  unfold mkLScal; destruct a; intros E; inversion E; try (right; reflexivity).
+  left; do 3 eexists; split; reflexivity.
+Qed.
+Lemma mkRScal_cases fn (a : oexpr) c o : mkRScal fn a c = Ok o ->
+  (exists f' a' c', a = ORScal f' a' c' /\ o = ORScal fn a' (c * c')) \/ o = ORScal fn a c.
+Proof.
+  unfold mkRScal; destruct a; intros E; inversion E; try (right; reflexivity).
+  left; do 3 eexists; split; reflexivity.
+Qed.
+
+Lemma mkLScal_sem fn a c o : wf a -> (fn = true -> ofunc a = true) -> mkLScal fn a c = Ok o ->
+  sem o (odom a) (oran a) (fun x => vscal c (eval a x)).
+Proof.
+  intros W F E. destruct (mkLScal_cases _ _ _ _ E) as [(f' & a' & c' & -> & ->)| ->].
+  - cbn [wf ofunc] in *. destruct W as (Wa & Fa).
+    split; [cbn [wf]; auto|]. split; [reflexivity|]. split; [reflexivity|].
+    intros x _. cbn [eval]. symmetry; apply (vscal_vscal Rth).
+  - split; [cbn [wf]; auto|]. split; [reflexivity|]. split; [reflexivity|]. reflexivity.
+Qed.
+
+Lemma mkRScal_sem fn a c o : wf a -> (fn = true -> ofunc a = true) -> mkRScal fn a c = Ok o ->
+  sem o (odom a) (oran a) (fun x => eval a (vscal c x)).
+Proof.
+  intros W F E. destruct (mkRScal_cases _ _ _ _ E) as [(f' & a' & c' & -> & ->)| ->].
+  - cbn [wf ofunc] in *. destruct W as (Wa & Fa).
+    split; [cbn [wf]; auto|]. split; [reflexivity|]. split; [reflexivity|].
+    intros x _. cbn [eval]. rewrite (vscal_vscal Rth). f_equal. f_equal. ring.
+  - split; [cbn [wf]; auto|]. split; [reflexivity|]. split; [reflexivity|]. reflexivity.
+Qed.
+
+Lemma mkSum_sem fn a b o : wf a -> wf b -> (fn = true -> ofunc a = true) -> mkSum fn a b = Ok o ->
+  sem o (odom a) (oran a) (fun x => vadd (eval a x) (eval b x)) /\ oran a = oran b /\ odom a = odom b.
+Proof.
+  intros Wa Wb F E. unfold mkSum in E.
+  destruct (sp_eqb (oran a) (oran b)) eqn:Er; cbn [negb] in E; [|discriminate].
+  destruct (sp_eqb (odom a) (odom b)) eqn:Ed; cbn [negb] in E; [|discriminate].
+  apply sp_eqb_eq in Er, Ed. inversion E; subst o. split; [|split; assumption]. sem_split; cbn [wf odom oran]; auto.
+Qed.
+
+Lemma mkComp_sem fn a b o : wf a -> wf b -> (fn = true -> ofunc a = true) -> mkComp fn a b = Ok o ->
+  sem o (odom b) (oran a) (fun x => eval a (eval b x)) /\ oran b = odom a.
+Proof.
+  intros Wa Wb F E. unfold mkComp in E.
+  destruct (sp_eqb (oran b) (odom a)) eqn:Er; [|discriminate].
+  apply sp_eqb_eq in Er. inversion E; subst o. split; [|assumption]. sem_split; cbn [wf odom oran]; auto.
+Qed.
+
+(* c * A *)
+Lemma rmul_c_sem a c o : wf a -> rmul_c a c = Ok o ->
+  sem o (odom a) (oran a) (fun x => vscal c (eval a x)).
+Proof.
+  intros W E. unfold rmul_c in E. destruct (ofunc a) eqn:F.
+  - destruct (c =? nzero) eqn:Z.
+    + apply Heqb in Z; subst c. inversion E; subst o. sem_split; cbn [wf odom oran].
+      * apply dom_sv; auto.
+      * reflexivity.
+      * symmetry; apply func_ran; auto.
+      * intros x Hx. cbn [eval]. rewrite (eval_func_singleton a x W F Hx). cbn. f_equal. ring.
+    + unfold mkFLScal in E. rewrite F in E. apply (mkLScal_sem true a c o W (fun _ => F) E).
+  - apply (mkLScal_sem false a c o W ltac:(discriminate) E).
+Qed.
+
+(* A * c *)
+Lemma mul_c_sem a c o : wf a -> mul_c a c = Ok o ->
+  sem o (odom a) (oran a) (fun x => eval a (vscal c x)).
+Proof.
+  intros W E. unfold mul_c in E. destruct (ofunc a) eqn:F.
+  - destruct (c =? nzero) eqn:Z.
+    + apply Heqb in Z; subst c. inversion E; subst o. sem_split; cbn [wf odom oran].
+      * apply dom_sv; auto.
+      * reflexivity.
+      * symmetry; apply func_ran; auto.
+      * intros x Hx. cbn [eval]. rewrite (vscal_zero Rth), Hx.
+        symmetry. apply eval_func_singleton; auto. apply repeat_length.
+    + destruct (olin a) eqn:L.
+      * unfold mkFLScal in E. rewrite F in E.
+        eapply sem_ext; [apply (mkLScal_sem true a c o W (fun _ => F) E)|].
+        intros x Hx. cbn beta. symmetry. apply (olin_hom a W L c x Hx).
+      * unfold mkFRScal in E. rewrite F in E. apply (mkRScal_sem true a c o W (fun _ => F) E).
+  - assert (Gen : (if olin a then rmul_c a c else mkRScal false a c) = Ok o ->
+                  sem o (odom a) (oran a) (fun x => eval a (vscal c x))).
+    { intros E'. destruct (olin a) eqn:L.
+      - eapply sem_ext; [eapply rmul_c_sem; eauto|].
+        intros x Hx. cbn beta. symmetry. apply (olin_hom a W L c x Hx).
+      - apply (mkRScal_sem false a c o W ltac:(discriminate) E'). }
+    destruct a; try (apply Gen; exact E).
+    (* OperatorRightScalarMult.__mul__ *)
+    cbn [wf ofunc odom oran] in *. destruct W as (Wa & Fa).
+    eapply sem_ext; [apply (mkRScal_sem false _ _ o Wa ltac:(discriminate) E)|].
+    intros x Hx. cbn beta. cbn [eval]. rewrite (vscal_vscal Rth). reflexivity.
+Qed.
+
+(* A * v *)
+Lemma mul_v_sem a v o : wf a -> mul_v a v = Ok o ->
+  sem o (odom a) (oran a) (fun x => eval a (vmul v x)) /\ odom a = SV (length v).
+Proof.
+  intros W E. unfold mul_v in E. destruct (in_sp v (odom a)) eqn:I; [|discriminate].
+  apply in_sp_eq in I. inversion E; subst o. split; [|assumption].
+  sem_split; cbn [wf odom oran]; auto.
+  intros x _. cbn [eval]. f_equal. apply (vmul_comm Rth).
+Qed.
+
+(* v * A *)
+Lemma rmul_v_sem a v o : wf a -> rmul_v a v = Ok o ->
+  sem o (odom a) (match oran a with SF => SV (length v) | r => r end)
+      (fun x => match oran a with
+                | SF => vscal (scalar_of (eval a x)) v
+                | SV _ => vmul v (eval a x)
+                end).
+Proof.
+  intros W E. unfold rmul_v in E. destruct (in_sp v (oran a)) eqn:I.
+  - apply in_sp_eq in I. inversion E; subst o. rewrite I. sem_split; cbn [wf odom oran]; auto.
+    intros x _. cbn [eval]. apply (vmul_comm Rth).
+  - destruct (oran a) eqn:R; [discriminate|]. inversion E; subst o.
+    sem_split; cbn [wf odom oran]; auto.
+Qed.
+
+(* A * B *)
+Lemma mul_op_sem a b o : wf a -> wf b -> mul_op a b = Ok o ->
+  sem o (odom b) (oran a) (fun x => eval a (eval b x)) /\ oran b = odom a.
+Proof.
+  intros Wa Wb E. unfold mul_op, mkFComp in E. destruct (ofunc a) eqn:F.
+  - apply (mkComp_sem true a b o Wa Wb (fun _ => F) E).
+  - apply (mkComp_sem false a b o Wa Wb ltac:(discriminate) E).
+Qed.
+
+(* A + B *)
+Lemma add_op_sem a b o : wf a -> wf b -> add_op a b = Ok o ->
+  sem o (odom a) (oran a) (fun x => vadd (eval a x) (eval b x)) /\ oran a = oran b /\ odom a = odom b.
+Proof.
+  intros Wa Wb E. unfold add_op in E.
+  destruct (subclass_radd (ocls b) (ocls a)) eqn:S.
+  - destruct (mkSum_sem false b a o Wb Wa ltac:(discriminate) E) as ((W & D & R & Ev) & Er & Ed).
+    split; [|split; congruence]. sem_split; auto; try congruence.
+    intros x Hx. rewrite Ev by congruence. apply (vadd_comm Rth).
+  - destruct (ofunc a && ofunc b) eqn:F.
+    + apply andb_true_iff in F as [Fa Fb]. unfold mkFSum in E. rewrite Fa, Fb in E. cbn in E.
+      apply (mkSum_sem true a b o Wa Wb (fun _ => Fa) E).
+    + apply (mkSum_sem false a b o Wa Wb ltac:(discriminate) E).
+Qed.
+
+(* A + v *)
+Lemma add_v_sem a v o : wf a -> add_v a v = Ok o ->
+  sem o (odom a) (oran a) (fun x => vadd (eval a x) v) /\ oran a = SV (length v).
+Proof.
+  intros W E. unfold add_v in E. destruct (in_sp v (oran a)) eqn:I; [|discriminate].
+  apply in_sp_eq in I. unfold mkVecSum in E. rewrite I in E. inversion E; subst o.
+  split; [|assumption]. sem_split; cbn [wf odom oran]; auto.
+Qed.
+
+(* A + c *)
+Lemma add_c_sem a c o : wf a -> add_c a c = Ok o ->
+  sem o (odom a) (oran a) (fun x => map (fun u => u + c) (eval a x)).
+Proof.
+  intros W E. unfold add_c in E. destruct (ofunc a) eqn:F.
+  - inversion E; subst o. sem_split; cbn [wf odom oran]; auto.
+    + symmetry; apply func_ran; auto.
+    + intros x Hx. cbn [eval]. rewrite (eval_func_singleton a x W F Hx). reflexivity.
+  - destruct (oran a) eqn:R; [|discriminate]. inversion E; subst o.
+    sem_split; cbn [wf odom oran]; auto.
+    + split; [assumption|]. rewrite vscal_length. unfold vone. rewrite repeat_length. assumption.
+    + intros x Hx. cbn [eval]. apply (vadd_const Rth).
+      rewrite (eval_length a W x Hx), R. reflexivity.
+Qed.
+
+(* A ** n *)
+Lemma iter_fun_shift (f : vec -> vec) k x : iter_fun k f (f x) = f (iter_fun k f x).
+Proof. induction k as [|k IH]; cbn [iter_fun]; [reflexivity | rewrite IH; reflexivity]. Qed.
+
+Lemma pow_loop_sem k self op o : wf self -> wf op -> odom op = odom self -> oran op = oran self ->
+  pow_loop k self op = Ok o ->
+  sem o (odom self) (oran self) (fun x => iter_fun k (eval self) (eval op x))
+  /\ (k <> O -> oran self = odom self).
+Proof.
+  revert op o. induction k as [|k IH]; intros op o Ws Wo Ed Er E; cbn [pow_loop] in E.
+  - inversion E; subst o. split; [|congruence]. sem_split; auto.
+  - unfold bind in E. destruct (mkComp false self op) as [op'|] eqn:M; [|discriminate].
+    destruct (mkComp_sem false self op op' Ws Wo ltac:(discriminate) M) as ((W' & D' & R' & Ev') & Hr).
+    destruct (IH op' o Ws W' ltac:(congruence) R' E) as ((W & D & R & Ev) & _).
+    split; [|intros _; congruence].
+    sem_split; auto. intros x Hx. rewrite (Ev x Hx), Ev' by congruence.
+    cbn [iter_fun]. apply iter_fun_shift.
+Qed.
+
+Lemma pow_op_sem a n o : wf a -> pow_op a n = Ok o ->
+  (0 < n)%Z /\ sem o (odom a) (oran a) (fun x => iter_fun (Z.to_nat n) (eval a) x)
+  /\ ((1 < n)%Z -> oran a = odom a).
+Proof.
+  intros W E. unfold pow_op in E. destruct (n <=? 0)%Z eqn:Z0; [discriminate|].
+  apply Z.leb_gt in Z0. split; [assumption|].
+  destruct (pow_loop_sem _ a a o W W eq_refl eq_refl E) as (Sm & Hsq). split.
+  - eapply sem_ext; [exact Sm|]. intros x Hx. cbn beta.
+    remember (Z.to_nat n - 1)%nat as k eqn:Hk.
+    replace (Z.to_nat n) with (S k) by lia. cbn [iter_fun]. apply iter_fun_shift.
+  - intros H1. apply Hsq. lia.
+Qed.
+
+(* OperatorPointwiseProduct(A, B) *)
+Lemma mkPtw_sem a b o : wf a -> wf b -> mkPtw a b = Ok o ->
+  sem o (odom a) (oran a) (fun x => vmul (eval a x) (eval b x)) /\ oran a = oran b /\ odom a = odom b.
+Proof.
+  intros Wa Wb E. unfold mkPtw in E.
+  destruct (sp_eqb (oran a) (oran b)) eqn:Er; cbn [negb] in E; [|discriminate].
+  destruct (sp_eqb (odom a) (odom b)) eqn:Ed; cbn [negb] in E; [|discriminate].
+  apply sp_eqb_eq in Er, Ed. inversion E; subst o. split; [|split; assumption]. sem_split; cbn [wf odom oran]; auto.
+Qed.
+
+(* ------------------------------------------------------------------ *)
+(* in-place evaluation = out-of-place evaluation, for every object tree *)
+Lemma eval_ip_eq o : forall x, eval_ip o x = eval o x.
+Proof.
+  induction o as [l|d c|d|fn a IHa b IHb|a IHa c|a IHa v|fn a IHa b IHb|fn a IHa c|fn a IHa c
+                 |a IHa v|fn a IHa v|a IHa v|a IHa b IHb]; intros x; cbn [eval_ip eval];
+    try reflexivity; rewrite ?IHb, ?IHa; try reflexivity.
+  - apply (vadd_comm Rth).
+  - apply (vmul_comm Rth).
+Qed.
+
+(* ------------------------------------------------------------------ *)
+Fixpoint sleaves_ok (s : sexpr) : Prop :=
+  match s with
+  | SLeaf l => leaf_ok l
+  | SConst d _ | SZero d => exists n, d = SV n
+  | SAdd a b | SSub a b | SMul a b | SPtw a b => sleaves_ok a /\ sleaves_ok b
+  | SNeg a | SPow a _ | SAddV a _ | SVAdd _ a | SSubV a _ | SVSub _ a | SMulV a _ | SVMul _ a
+  | SAddC a _ | SCAdd _ a | SSubC a _ | SCSub _ a | SMulC a _ | SCMul _ a | SDivC a _ => sleaves_ok a
+  end.
+
+Lemma iter_ext (f g : vec -> vec) n k :
+  (forall x, length x = n -> f x = g x) -> (forall x, length x = n -> length (f x) = n) ->
+  forall x, length x = n -> iter_fun k f x = iter_fun k g x /\ length (iter_fun k f x) = n.
+Proof.
+  intros Hfg Hlen x Hx. induction k as [|k [IH1 IH2]]; cbn [iter_fun]; [auto|].
+  rewrite <- IH1. split; [apply Hfg; exact IH2 | apply Hlen; exact IH2].
+Qed.
+
+Ltac unbind E :=
+  unfold bind in E;
+  repeat match type of E with
+         | (match ?r with Ok _ => _ | Err _ => _ end) = _ =>
+             let o := fresh "o" in let B := fresh "B" in destruct r as [o|] eqn:B; [|discriminate E]
+         end.
+
+(* THE MAIN INDUCTION: whatever object the overloads build from a source expression of any
+   depth, it is well formed, has the domain/range implied by the expression, and evaluates
+   to the documented table applied recursively. *)
+Theorem build_sem : forall s o, sleaves_ok s -> build s = Ok o ->
+  sem o (sdom s) (sran s) (denote s).
+Proof.
+  induction s as [l|d c|d|a IHa b IHb|a IHa b IHb|a IHa b IHb|a IHa|a IHa n|a IHa v|v a IHa|a IHa v
+                 |v a IHa|a IHa v|v a IHa|a IHa c|c a IHa|a IHa c|c a IHa|a IHa c|c a IHa|a IHa c
+                 |a IHa b IHb];
+    intros o L E; cbn [build] in E; cbn [sleaves_ok] in L; cbn [sdom sran denote].
+  - (* leaf *) inversion E; subst o. sem_split; cbn [wf odom oran eval]; auto.
+  - inversion E; subst o. sem_split; cbn [wf odom oran eval]; auto.
+  - inversion E; subst o. sem_split; cbn [wf odom oran eval]; auto.
+  - (* A + B *) destruct L as [La Lb]. unbind E.
+    destruct (IHa _ La eq_refl) as (Wa & Da & Ra & Ea). destruct (IHb _ Lb eq_refl) as (Wb & Db & Rb & Eb).
+    destruct (add_op_sem _ _ _ Wa Wb E) as ((W & D & R & Ev) & Er & Ed).
+    sem_split; auto; try congruence.
+    intros x Hx. rewrite Ev, Ea, Eb by congruence. reflexivity.
+  - (* A - B *) destruct L as [La Lb]. unbind E.
+    destruct (IHa _ La eq_refl) as (Wa & Da & Ra & Ea). destruct (IHb _ Lb eq_refl) as (Wb & Db & Rb & Eb).
+    destruct (rmul_c_sem _ _ _ Wb B1) as (Wn & Dn & Rn & En).
+    destruct (add_op_sem _ _ _ Wa Wn E) as ((W & D & R & Ev) & Er & Ed).
+    sem_split; auto; try congruence.
+    intros x Hx. rewrite Ev, En, Ea, Eb by congruence. apply (vadd_vscal_neg1 Rth).
+  - (* A * B *) destruct L as [La Lb]. unbind E.
+    destruct (IHa _ La eq_refl) as (Wa & Da & Ra & Ea). destruct (IHb _ Lb eq_refl) as (Wb & Db & Rb & Eb).
+    destruct (mul_op_sem _ _ _ Wa Wb E) as ((W & D & R & Ev) & Er).
+    sem_split; auto; try congruence.
+    intros x Hx. rewrite Ev by congruence. rewrite <- Eb by congruence. apply Ea.
+    rewrite (eval_length _ Wb x) by congruence. congruence.
+  - (* -A *) unbind E. destruct (IHa _ L eq_refl) as (Wa & Da & Ra & Ea).
+    destruct (rmul_c_sem _ _ _ Wa E) as (W & D & R & Ev).
+    sem_split; auto; try congruence.
+    intros x Hx. rewrite Ev, Ea by congruence. apply (vscal_neg1 Rth).
+  - (* A ** n *) unbind E. destruct (IHa _ L eq_refl) as (Wa & Da & Ra & Ea).
+    destruct (pow_op_sem _ _ _ Wa E) as (Hn & (W & D & R & Ev) & Hsq).
+    sem_split; auto; try congruence.
+    intros x Hx. rewrite Ev by congruence.
+    destruct (Z.eq_dec n 1) as [->|Hn1].
+    + cbn [Z.to_nat Pos.to_nat Pos.iter_op iter_fun]. apply Ea; assumption.
+    + assert (Hsq' : oran o0 = odom o0) by (apply Hsq; lia).
+      refine (proj1 (iter_ext (eval o0) (denote a) (dim (sdom a)) _ _ _ x Hx)).
+      * intros y Hy. apply Ea; assumption.
+      * intros y Hy. rewrite (eval_length _ Wa y) by congruence. congruence.
+  - (* A + v *) unbind E. destruct (IHa _ L eq_refl) as (Wa & Da & Ra & Ea).
+    destruct (add_v_sem _ _ _ Wa E) as ((W & D & R & Ev) & _).
+    sem_split; auto; try congruence.
+    intros x Hx. rewrite Ev, Ea by congruence. reflexivity.
+  - (* v + A *) unbind E. destruct (IHa _ L eq_refl) as (Wa & Da & Ra & Ea).
+    destruct (add_v_sem _ _ _ Wa E) as ((W & D & R & Ev) & _).
+    sem_split; auto; try congruence.
+    intros x Hx. rewrite Ev, Ea by congruence. reflexivity.
+  - (* A - v *) unbind E. destruct (IHa _ L eq_refl) as (Wa & Da & Ra & Ea).
+    destruct (add_v_sem _ _ _ Wa E) as ((W & D & R & Ev) & _).
+    sem_split; auto; try congruence.
+    intros x Hx. rewrite Ev, Ea by congruence. apply (vadd_vscal_neg1 Rth).
+  - (* v - A *) unbind E. destruct (IHa _ L eq_refl) as (Wa & Da & Ra & Ea).
+    destruct (rmul_c_sem _ _ _ Wa B0) as (Wn & Dn & Rn & En).
+    destruct (add_v_sem _ _ _ Wn E) as ((W & D & R & Ev) & _).
+    sem_split; auto; try congruence.
+    intros x Hx. rewrite Ev, En, Ea by congruence. apply (vadd_vscal_neg1_l Rth).
+  - (* A * v *) unbind E. destruct (IHa _ L eq_refl) as (Wa & Da & Ra & Ea).
+    destruct (mul_v_sem _ _ _ Wa E) as ((W & D & R & Ev) & Dv).
+    sem_split; auto; try congruence.
+    intros x Hx. rewrite Ev by congruence. apply Ea.
+    unfold vmul; rewrite vmap2_length, Hx, <- Da, Dv. cbn [dim]. apply Nat.min_id.
+  - (* v * A *) unbind E. destruct (IHa _ L eq_refl) as (Wa & Da & Ra & Ea).
+    destruct (rmul_v_sem _ _ _ Wa E) as (W & D & R & Ev). rewrite Ra in *.
+    sem_split; auto; try congruence.
+    intros x Hx. rewrite Ev by congruence. rewrite Ea by congruence. reflexivity.
+  - (* A + c *) unbind E. destruct (IHa _ L eq_refl) as (Wa & Da & Ra & Ea).
+    destruct (add_c_sem _ _ _ Wa E) as (W & D & R & Ev).
+    sem_split; auto; try congruence.
+    intros x Hx. rewrite Ev, Ea by congruence. reflexivity.
+  - (* c + A *) unbind E. destruct (IHa _ L eq_refl) as (Wa & Da & Ra & Ea).
+    destruct (add_c_sem _ _ _ Wa E) as (W & D & R & Ev).
+    sem_split; auto; try congruence.
+    intros x Hx. rewrite Ev, Ea by congruence. reflexivity.
+  - (* A - c *) unbind E. destruct (IHa _ L eq_refl) as (Wa & Da & Ra & Ea).
+    destruct (add_c_sem _ _ _ Wa E) as (W & D & R & Ev).
+    sem_split; auto; try congruence.
+    intros x Hx. rewrite Ev, Ea by congruence. apply (map_addc_opp Rth).
+  - (* c - A *) unbind E. destruct (IHa _ L eq_refl) as (Wa & Da & Ra & Ea).
+    destruct (rmul_c_sem _ _ _ Wa B0) as (Wn & Dn & Rn & En).
+    destruct (add_c_sem _ _ _ Wn E) as (W & D & R & Ev).
+    sem_split; auto; try congruence.
+    intros x Hx. rewrite Ev, En, Ea by congruence. apply (map_addc_vscal_neg1 Rth).
+  - (* A * c *) unbind E. destruct (IHa _ L eq_refl) as (Wa & Da & Ra & Ea).
+    destruct (mul_c_sem _ _ _ Wa E) as (W & D & R & Ev).
+    sem_split; auto; try congruence.
+    intros x Hx. rewrite Ev by congruence. apply Ea. rewrite vscal_length. assumption.
+  - (* c * A *) unbind E. destruct (IHa _ L eq_refl) as (Wa & Da & Ra & Ea).
+    destruct (rmul_c_sem _ _ _ Wa E) as (W & D & R & Ev).
+    sem_split; auto; try congruence.
+    intros x Hx. rewrite Ev, Ea by congruence. reflexivity.
+  - (* A / c *) unbind E. destruct (c =? nzero) eqn:Zc; [discriminate|].
+    destruct (IHa _ L eq_refl) as (Wa & Da & Ra & Ea).
+    destruct (mul_c_sem _ _ _ Wa E) as (W & D & R & Ev).
+    sem_split; auto; try congruence.
+    intros x Hx. rewrite Ev by congruence.
+    replace (map (fun u => u / c) x) with (vscal (none_ / c) x)
+      by (unfold vscal; apply map_ext; intros; symmetry; apply Hdiv).
+    apply Ea. rewrite vscal_length. assumption.
+  - (* pointwise product *) destruct L as [La Lb]. unbind E.
+    destruct (IHa _ La eq_refl) as (Wa & Da & Ra & Ea). destruct (IHb _ Lb eq_refl) as (Wb & Db & Rb & Eb).
+    destruct (mkPtw_sem _ _ _ Wa Wb E) as ((W & D & R & Ev) & Er & Ed).
+    sem_split; auto; try congruence.
+    intros x Hx. rewrite Ev, Ea, Eb by congruence. reflexivity.
+Qed.
+
+(* the statement in the words of the property *)
+Corollary build_sound : forall s o, sleaves_ok s -> build s = Ok o ->
+  forall x, length x = dim (sdom s) ->
+    eval o x = denote s x /\ eval_ip o x = denote s x.
+Proof.
+  intros s o L E x Hx. destruct (build_sem s o L E) as (_ & _ & _ & Ev).
+  rewrite eval_ip_eq. split; apply Ev; assumption.
+Qed.
+
+Corollary build_types : forall s o, sleaves_ok s -> build s = Ok o ->
+  odom o = sdom s /\ oran o = sran s /\
+  (forall x, length x = dim (sdom s) -> length (eval o x) = dim (sran s)).
+Proof.
+  intros s o L E. destruct (build_sem s o L E) as (W & D & R & _).
+  split; [assumption|]. split; [assumption|].
+  intros x Hx. rewrite (eval_length _ W x) by congruence. congruence.
+Qed.
+
+(* ------------------------------------------------------------------ *)
+(* the concrete pool of C04/Model.v meets the leaf premise (so it is satisfiable, and the
+   theorems hold without any leaf premise for expressions over the pool) *)
+Lemma dot_vscal_r c (r x : vec) : dot r (vscal c x) = c * dot r x.
+Proof.
+  revert x; induction r as [|a r IH]; intros [|b x]; unfold dot, vmul, vscal in *;
+    cbn [vmap2 map sumf]; try ring.
+  rewrite IH. ring.
+Qed.
+Lemma mvec_vscal c (m : list vec) (x : vec) : mvec m (vscal c x) = vscal c (mvec m x).
+Proof.
+  unfold mvec, vscal at 2. rewrite map_map. apply map_ext. intros r. apply dot_vscal_r.
+Qed.
+
+Inductive is_pool : leaf -> Prop :=
+| P_Mat id nc m : is_pool (LMat id nc m)
+| P_Aff id nc m b : length b = length m -> is_pool (LAff id nc m b)
+| P_Sq id n b : length b = n -> is_pool (LSq id n b)
+| P_Cube id n : is_pool (LCube id n)
+| P_Abs id n : is_pool (LAbs id n)
+| P_IP id w : is_pool (LIP id w)
+| P_FLin id w : is_pool (FLin id w)
+| P_FQuad id w b c : is_pool (FQuad id w b c)
+| P_FL1 id n : is_pool (FL1 id n)
+| P_NQuad id w c : is_pool (NQuad id w c).
+
+Lemma is_pool_ok l : is_pool l -> leaf_ok l.
+Proof.
+  intros P; destruct P; constructor;
+    unfold LMat, LAff, LSq, LCube, LAbs, LIP, FLin, FQuad, FL1, NQuad;
+    cbn [l_dom l_ran l_lin l_func l_fun dim];
+    try (eexists; reflexivity); try discriminate; try reflexivity; try (intros; reflexivity).
+  - intros x _. unfold mvec. apply map_length.
+  - intros _ c x _. apply mvec_vscal.
+  - intros x _. unfold vadd, mvec. rewrite vmap2_length, map_length, H. apply Nat.min_id.
+  - intros x Hx. unfold vadd, vmul. rewrite !vmap2_length, Hx, H. rewrite !Nat.min_id. reflexivity.
+  - intros x Hx. unfold vmul. rewrite !vmap2_length, Hx. rewrite !Nat.min_id. reflexivity.
+  - intros x Hx. rewrite map_length. assumption.
+  - intros _ c x _. cbn [vscal map]. f_equal. apply dot_vscal_r.
+  - intros _ c x _. cbn [vscal map]. f_equal. apply dot_vscal_r.
+Qed.
+
+Fixpoint sleaves_pool (s : sexpr) : Prop :=
+  match s with
+  | SLeaf l => is_pool l
+  | SConst d _ | SZero d => exists n, d = SV n
+  | SAdd a b | SSub a b | SMul a b | SPtw a b => sleaves_pool a /\ sleaves_pool b
+  | SNeg a | SPow a _ | SAddV a _ | SVAdd _ a | SSubV a _ | SVSub _ a | SMulV a _ | SVMul _ a
+  | SAddC a _ | SCAdd _ a | SSubC a _ | SCSub _ a | SMulC a _ | SCMul _ a | SDivC a _ => sleaves_pool a
+  end.
+Lemma sleaves_pool_ok s : sleaves_pool s -> sleaves_ok s.
+Proof.
+  induction s; cbn [sleaves_pool sleaves_ok]; intros P; try tauto. apply is_pool_ok; assumption.
+Qed.
+
+End Sound.
